@@ -11,6 +11,7 @@
   interleaved mode is never a clock reading taken after the departure.
 -/
 import ScionTime.Proofs.ListenerTx
+import ScionTime.Proofs.ServerFrame
 import ScionTime.Props.C06
 import ScionTime.Gen.Server
 import ScionTime.Gen.Udp
@@ -211,6 +212,23 @@ theorem C06_tx_inv_init (cap icap : Nat) : WInv cap icap World.init := by
   have := C06_inv_init cap icap
   exact ⟨this.wf, this.size, fun k it h => by simp [World.init, Server.init] at h⟩
 
+/-! ### what is on record, all histories -/
+
+/-- `e` is the record of an exchange of client `cl` in `outs`: its receive timestamp is the one
+    that reply carried and its transmit time is the kernel transmit timestamp of *that reply's
+    own datagram*, delivered in time (forced at least 1 ns later than the receive time) -/
+def Good (outs : List Out) (cl : Nat) (e : Entry) : Prop :=
+  ∃ o ∈ outs, o.cl = cl ∧ o.reply ≠ none ∧ e.rx = ofTime o.rxt ∧
+    ∃ t, o.own = some t ∧ e.tx = ofTime (utxTxt o.rxt t)
+
+/-- everything on record is `Good` -/
+def RecInv (w : World) (outs : List Out) : Prop :=
+  ∀ cl it e, w.store.items.find cl = some it → e ∈ it.buf → Good outs cl e
+
+theorem good_mono_left {a : List Out} (b : List Out) {cl : Nat} {e : Entry} (h : Good a cl e) : Good (a ++ b) cl e := by
+  obtain ⟨o, ho, r⟩ := h
+  exact ⟨o, List.mem_append_left _ ho, r⟩
+
 section
 variable (cap icap : Nat) (hcap : 1 ≤ cap) (hic : 1 ≤ icap) (hic2 : icap < 1000000000)
 include hcap hic hic2
@@ -271,7 +289,7 @@ theorem C06_tx_step_value (w : World) (inv : WInv cap icap w) (e : Ev) :
     simp only [stepEv]
     refine ⟨?_, b⟩
     intro t ht
-    cases kb <;> simp [stepEv, KB.own] at ht
+    cases kb <;> simp [KB.own] at ht
     subst ht
     exact a _ rfl
   | aux sk kb => intro h; simp [stepEv, Out.none] at h
@@ -357,6 +375,72 @@ theorem C06_tx_undelivered_dropped (w : World) (inv : WInv cap icap w) (sk cl : 
   obtain ⟨t, ht, _⟩ := C06_tx_recorded_or_dropped cap icap hcap hic hic2 w inv sk cl req krx nowRx now kb it e hfind he hrx
   rw [ht] at hkb; simp [KB.own] at hkb
 
+theorem C06_tx_record_step (w : World) (inv : WInv cap icap w) (pre : List Out) (h : RecInv w pre) (ev : Ev) :
+    RecInv (stepEv code cap icap w ev).1 (pre ++ [(stepEv code cap icap w ev).2]) := by
+  cases ev with
+  | aux sk kb => intro cl it e hf he; exact good_mono_left _ (h cl it e hf he)
+  | drop sk => intro cl it e hf he; exact good_mono_left _ (h cl it e hf he)
+  | ntp sk cl req krx nowRx now kb =>
+    intro k it e hf he
+    by_cases hk : k = cl ∧ e.rx = ofTime (stepEv code cap icap w (.ntp sk cl req krx nowRx now kb)).2.rxt
+    · obtain ⟨rfl, hrx⟩ := hk
+      obtain ⟨t, ht, htx, _⟩ := C06_tx_recorded_or_dropped cap icap hcap hic hic2 w inv sk k req krx nowRx now kb it e hf he hrx
+      refine ⟨_, List.mem_append_right _ List.mem_cons_self, ?_, ?_, hrx, t, ?_, htx⟩
+      · simp [stepEv]
+      · simp [stepEv]
+      · simp [stepEv, ht, KB.own]
+    · apply good_mono_left
+      have inv1 : Inv0 (fun _ => True) cap icap (handleRequestG true cap icap w.store cl req (krx.getD nowRx) now).st :=
+        inv0_handleRequestG true cap icap hcap hic hic2 _ inv.store _ _ _ _ (fun _ _ _ _ _ => trivial)
+      have hecho := (C06_rx_echo_unique true cap icap hic2 w.store inv.store cl req (krx.getD nowRx) now).1
+      simp only [stepEv, handleRequest] at hf hk
+      rcases utx_frame _ inv1.wf cl _ _ k it e hf he with ⟨it1, hf1, he1⟩ | hx
+      · rcases hr_frame true cap icap hcap w.store inv.store.wf cl req (krx.getD nowRx) now k it1 e hf1 he1 with ⟨it0, hf0, he0⟩ | hx
+        · exact h k it0 e hf0 he0
+        · rw [hecho] at hx; exact absurd hx hk
+      · exact absurd hx hk
+
+/-- **what is on record, all histories**: after every history of NTP requests of any clients,
+    SCMP requests, forwarded and dropped datagrams on any listener sockets, with transmit
+    timestamps delivered in time, late or never — every exchange on record carries, as its
+    transmit time, the kernel transmit timestamp of the datagram of the very reply that carried
+    its receive timestamp. Nothing else is ever on record (in particular no exchange whose
+    timestamp was late or lost, and no timestamp of another datagram). -/
+theorem C06_tx_record_all_histories : ∀ (evs : List Ev) (w : World) (pre : List Out), WInv cap icap w →
+    RecInv w pre → RecInv (runEvs code cap icap w evs).1 (pre ++ (runEvs code cap icap w evs).2) := by
+  intro evs
+  induction evs with
+  | nil => intro w pre _ h; simpa [runEvs] using h
+  | cons e es ih =>
+    intro w pre inv h
+    have := ih _ (pre ++ [(stepEv code cap icap w e).2]) (C06_tx_inv_step cap icap hcap hic hic2 w inv e)
+      (C06_tx_record_step cap icap hcap hic hic2 w inv pre h e)
+    simpa [runEvs, List.append_assoc] using this
+
+/-- **interleaved replies serve kernel timestamps** (the clause of C06, end to end): whatever
+    history the listeners have been through, an interleaved reply carries the kernel transmit
+    timestamp of the datagram of an earlier reply to the same client — the reply whose receive
+    timestamp the request quotes as its origin. -/
+theorem C06_tx_interleaved_serves_kernel_stamp (evs : List Ev) (sk cl : Nat) (req : Req)
+    (krx : Option Int) (nowRx now : Int) (kb : KB) :
+    let h := runEvs code cap icap World.init evs
+    let r := stepEv code cap icap h.1 (.ntp sk cl req krx nowRx now kb)
+    ∀ rep, r.2.reply = some rep → rep.inter = true →
+      ∃ o ∈ h.2, o.cl = cl ∧ o.reply ≠ none ∧ req.org = ofTime o.rxt ∧
+        ∃ t, o.own = some t ∧ rep.tx = ofTime (utxTxt o.rxt t) := by
+  intro h r rep hrep hi
+  have inv := C06_tx_inv_run cap icap hcap hic hic2 evs World.init (C06_tx_inv_init cap icap)
+  have hrec := C06_tx_record_all_histories cap icap hcap hic hic2 evs World.init [] (C06_tx_inv_init cap icap)
+    (by intro cl it e hf; simp [World.init, Server.init] at hf)
+  simp only [List.nil_append] at hrec
+  simp only [r, stepEv, handleRequest, Option.some.injEq] at hrep
+  subst hrep
+  obtain ⟨_, it, e, hf, he, hrx, htx, _⟩ :=
+    C06_interleaved_shape true cap icap h.1.store inv.store cl req (krx.getD nowRx) now hi
+  obtain ⟨o, ho, a, b, c, t, d, f⟩ := hrec cl it e hf he
+  exact ⟨o, ho, a, b, by rw [← hrx, c], t, d, by rw [htx, f]⟩
+
+omit hcap hic hic2 in
 /-- **C03, server side**: when no kernel timestamp is available for a reply, the value handed to
     the store and what `updateTXTimestamp` makes of it is `txt0`, the reading `handleRequest` took
     **before** the datagram was written (not later than the clock reading `now` inside
@@ -378,6 +462,17 @@ theorem C03_tx_fallback_is_presend_reading (w : World) (inv : WInv cap icap w) (
   simp [hl.1]
 
 end
+
+/-- `C06_tx_interleaved_serves_kernel_stamp` with the capacities of the code (2^20 clients, 8
+    exchanges per client; pinned by `C06_pin_tssCap`, `C06_pin_tssItemCap`) -/
+theorem C06_tx_interleaved_serves_kernel_stamp_real (evs : List Ev) (sk cl : Nat) (req : Req)
+    (krx : Option Int) (nowRx now : Int) (kb : KB) :
+    let h := runEvs code tssCap tssItemCap World.init evs
+    let r := stepEv code tssCap tssItemCap h.1 (.ntp sk cl req krx nowRx now kb)
+    ∀ rep, r.2.reply = some rep → rep.inter = true →
+      ∃ o ∈ h.2, o.cl = cl ∧ o.reply ≠ none ∧ req.org = ofTime o.rxt ∧
+        ∃ t, o.own = some t ∧ rep.tx = ofTime (utxTxt o.rxt t) :=
+  C06_tx_interleaved_serves_kernel_stamp tssCap tssItemCap (by decide) (by decide) (by decide) evs sk cl req krx nowRx now kb
 
 /-- receive-timestamp fallback: without a kernel receive timestamp the receive time of the
     exchange is the clock reading taken after the datagram was read (`timebase.Now()`), with a
@@ -478,5 +573,7 @@ theorem C06_aux_branches_must_read_counterexample :
 /-! Non-vacuity: reachable worlds satisfy `WInv`; the histories above exercise every `KB`. -/
 example : WInv tssCap tssItemCap World.init := C06_tx_inv_init _ _
 example : (f20run code).length = 3 := by decide
+/-- an interleaved reply does occur after a history (hypothesis of `C06_tx_interleaved_serves_kernel_stamp`) -/
+example : ((f20run code)[2]?.bind (·.reply)).map (·.inter) = some true := by decide
 
 end ScionTime.Props.C06Tx
